@@ -2463,15 +2463,24 @@ static hawk_nde_t* parse_if (hawk_t* hawk, const hawk_loc_t* xloc)
 	hawk_nde_t* test = HAWK_NULL;
 	hawk_nde_t* then_part = HAWK_NULL;
 	hawk_nde_t* else_part = HAWK_NULL;
+	hawk_nde_if_t* head = HAWK_NULL; /* the if node to return */
+	hawk_nde_if_t* tail = HAWK_NULL; /* the last if node of the else-if ladder built so far */
 	hawk_nde_if_t* nde;
-	hawk_loc_t eloc, tloc;
+	hawk_loc_t iloc, eloc, tloc;
 
+	iloc = *xloc;
+
+	/* an else-if ladder - if (a) x; else if (b) y; else if (c) z; ... - is parsed
+	 * by coming back here for each 'else if'. each turn makes one if node and links
+	 * it to the else part of the previous one. the ladder can be of any length and
+	 * no depth limit applies to it. so it must not cost a level of recursion per arm */
+next_arm:
 	if (!MATCH(hawk,TOK_LPAREN))
 	{
 		hawk_seterrfmt (hawk,  &hawk->tok.loc, HAWK_ELPAREN, FMT_ELPAREN, HAWK_OOECS_LEN(hawk->tok.name), HAWK_OOECS_PTR(hawk->tok.name));
-		return HAWK_NULL;
+		goto oops;
 	}
-	if (get_token(hawk) <= -1) return HAWK_NULL;
+	if (get_token(hawk) <= -1) goto oops;
 
 	eloc = hawk->tok.loc;
 	test = parse_expr_withdc(hawk, &eloc);
@@ -2499,37 +2508,54 @@ static hawk_nde_t* parse_if (hawk_t* hawk, const hawk_loc_t* xloc)
 		if (get_token(hawk) <= -1) goto oops;
 	}
 
-	if (MATCH(hawk,TOK_ELSE))
-	{
-		if (get_token(hawk) <= -1) goto oops;
-
-		{
-			hawk_loc_t eloc;
-			eloc = hawk->tok.loc;
-			else_part = parse_statement(hawk, &eloc);
-			if (else_part == HAWK_NULL) goto oops;
-		}
-	}
-
 	nde = (hawk_nde_if_t*)hawk_callocmem(hawk, HAWK_SIZEOF(*nde));
 	if (HAWK_UNLIKELY(!nde))
 	{
-		ADJERR_LOC (hawk, xloc);
+		ADJERR_LOC (hawk, &iloc);
 		goto oops;
 	}
 
 	nde->type = HAWK_NDE_IF;
-	nde->loc = *xloc;
+	nde->loc = iloc;
 	nde->test = test;
 	nde->then_part = then_part;
-	nde->else_part = else_part;
+	test = HAWK_NULL;
+	then_part = HAWK_NULL;
 
-	return (hawk_nde_t*)nde;
+	if (tail) tail->else_part = (hawk_nde_t*)nde;
+	else head = nde;
+	tail = nde;
+
+	if (MATCH(hawk,TOK_ELSE))
+	{
+		if (get_token(hawk) <= -1) goto oops;
+
+		/* skip new lines before the statement as parse_statement() does */
+		while (MATCH(hawk,TOK_NEWLINE))
+		{
+			if (get_token(hawk) <= -1) goto oops;
+		}
+
+		if (MATCH(hawk,TOK_IF))
+		{
+			/* else if. hawk->parse.id.stmt is TOK_IF already */
+			iloc = hawk->tok.loc;
+			if (get_token(hawk) <= -1) goto oops;
+			goto next_arm;
+		}
+
+		eloc = hawk->tok.loc;
+		else_part = parse_statement(hawk, &eloc);
+		if (else_part == HAWK_NULL) goto oops;
+		tail->else_part = else_part;
+	}
+
+	return (hawk_nde_t*)head;
 
 oops:
-	if (else_part) hawk_clrpt (hawk, else_part);
 	if (then_part) hawk_clrpt (hawk, then_part);
 	if (test) hawk_clrpt (hawk, test);
+	if (head) hawk_clrpt (hawk, (hawk_nde_t*)head);
 	return HAWK_NULL;
 }
 
